@@ -331,6 +331,12 @@ func runAliasOp(op M) (operands []aliasOperand, results []aliasOperand, note str
 		}
 		padCapacity(n, 2)
 		return []aliasOperand{{"node", n}}, []aliasOperand{{"copy", n.Copy()}}, ""
+	case "copyNode2":
+		// a copy and a copy of that copy: the second call's operand is the first call's result
+		n := NodeOf(get("n"))
+		padCapacity(n, 2)
+		c1 := n.Copy()
+		return []aliasOperand{{"node", n}}, []aliasOperand{{"copy", c1}, {"copy of the copy", c1.Copy()}}, ""
 	case "copyEdge":
 		e := EdgeOf(get("e"))
 		padCapacity(e, 2)
@@ -684,7 +690,16 @@ func aliasGen(g *G, tier string) []M {
 					}
 				}
 			}
-			ops = append(ops, M{"op": "alias", "what": "copyNode", "n": nd, "share": g.Chance(0.4)})
+			if at, ok := nd["a"].(M); ok && g.Chance(0.3) {
+				// dates protobuf calls invalid (negative nanos, past year 9999) are values like any other
+				fld := g.Pick([]string{"ReleaseDate", "BuildDate", "ValidUntilDate"})
+				at[fld] = [][]any{{1700000000.0, -1.0}, {253402300800.0, 0.0}, {-62135596801.0, 0.0}}[g.Int(3)]
+			}
+			if g.Chance(0.3) {
+				ops = append(ops, M{"op": "alias", "what": "copyNode2", "n": nd})
+			} else {
+				ops = append(ops, M{"op": "alias", "what": "copyNode", "n": nd, "share": g.Chance(0.4)})
+			}
 		case 2:
 			e := M{"ty": float64(EdgeTypes[g.Int(6)]), "src": "a", "tos": []any{"b", "c", "a"}[:g.Int(4)]}
 			ops = append(ops, M{"op": "alias", "what": "copyEdge", "e": e})
@@ -784,7 +799,14 @@ func (g *G) serializableDoc() M {
 		edges = append(edges, M{"ty": 10.0, "src": pool[g.Int(len(pool))], "tos": tos})
 	}
 	g.R.Shuffle(len(edges), func(i, j int) { edges[i], edges[j] = edges[j], edges[i] })
-	return M{"nodes": nodes, "edges": edges, "roots": []any{pool[0]}}
+	roots := []any{pool[0]}
+	switch g.Int(8) {
+	case 0:
+		roots = []any{} // refused by CycloneDX: the document must be left alone all the same
+	case 1:
+		roots = []any{pool[0], pool[len(pool)-1]}
+	}
+	return M{"nodes": nodes, "edges": edges, "roots": roots}
 }
 
 var AliasStream = &Stream{
